@@ -22,7 +22,7 @@ func litFieldStores(fn *ssa.Function, allocDesc string) map[string]*ssa.Store {
 	allInstrs(fn, func(i ssa.Instruction) {
 		if st, ok := i.(*ssa.Store); ok {
 			if fa, ok := st.Addr.(*ssa.FieldAddr); ok && desc(fa.X) == allocDesc {
-				out[fieldName(fa.X.Type(), fa.Field)] = st
+				out[faName(fa)] = st
 			}
 		}
 	})
@@ -52,10 +52,10 @@ func init() {
 				guardRangeObl(P, R, "C05.a", kCLVerify+":E", "E", is(clsig+".E"), lower, upperExcl, []fnAcc{{fn, AcceptTrue(0)}})
 				mp(P, R, "C05.a", kCLVerify+":E-prime", "accept => E.ProbablyPrime(k) with k >= 20 returned true", fn, AcceptTrue(0), &MustPass{Match: func(a Atom) bool {
 					c, _ := callAndResult(a.V)
-					if c == nil || a.Want != True || bigMethod(c) != "ProbablyPrime" || desc(c.Call.Args[0]) != clsig+".E" {
+					if c == nil || a.Want != True || bigMethod(c) != "ProbablyPrime" || desc(callArgs(c)[0]) != clsig+".E" {
 						return false
 					}
-					k, ok := constInt(c.Call.Args[1])
+					k, ok := constInt(callArgs(c)[1])
 					return ok && k >= 20
 				}})
 			}},
@@ -103,7 +103,7 @@ func init() {
 						return
 					}
 					uses := false
-					for _, a := range c.Call.Args[1:] {
+					for _, a := range callArgs(c)[1:] {
 						if desc(a) == clsig+".KeyshareP" {
 							uses = true
 						}
@@ -125,7 +125,7 @@ func init() {
 					ok := false
 					for _, c := range callsIn(rp) {
 						if isCallTo(c, "common.RepresentToBases") {
-							a := c.Common().Args
+							a := callArgs(c)
 							lm, _ := affineOf(a[3])
 							ok = desc(a[0]) == pkD+".R" && desc(a[1]) == "arg#1" && desc(a[2]) == pkD+".N" && lm.String() == "Lm"
 						}
@@ -176,8 +176,8 @@ func representToBasesShape(P *Program, R *Report, rule string) {
 			expCall = c
 		}
 	})
-	ok := expCall != nil && desc(expCall.Call.Args[1]) == "arg#0[#i]" && desc(expCall.Call.Args[3]) == "arg#2" &&
-		strings.Contains(desc(expCall.Call.Args[2]), "arg#1[#i]")
+	ok := expCall != nil && desc(callArgs(expCall)[1]) == "arg#0[#i]" && desc(callArgs(expCall)[3]) == "arg#2" &&
+		strings.Contains(desc(callArgs(expCall)[2]), "arg#1[#i]")
 	R.decide(rule, "common.RepresentToBases:term", "every exponent i is applied to base i modulo the modulus", ok, "", P.Pos(fn.Pos()))
 	loops := rangeLoopsOver(fn, is("arg#1"))
 	R.decide(rule, "common.RepresentToBases:all-exps", "the product ranges over all given exponents", len(loops) == 1 && expCall != nil && loops[0].Body[expCall.Block()], fmt.Sprintf("%d loops over exps", len(loops)), P.Pos(fn.Pos()))
@@ -188,7 +188,7 @@ func representToBasesShape(P *Program, R *Report, rule string) {
 	}
 	if expCall != nil {
 		ds := deps(P, roots[0])
-		R.decide(rule, "common.RepresentToBases:accumulates", "the returned product depends on every power", ds[expCall] || ds[expCall.Call.Args[0]], "", P.Pos(fn.Pos()))
+		R.decide(rule, "common.RepresentToBases:accumulates", "the returned product depends on every power", ds[expCall] || ds[callArgs(expCall)[0]], "", P.Pos(fn.Pos()))
 	}
 }
 
@@ -199,7 +199,7 @@ func signerIntervalRule(P *Program, R *Report) {
 		found := false
 		for _, c := range callsIn(fn) {
 			if isCallTo(c, "common.RandomPrimeInRange") {
-				a := c.Common().Args
+				a := callArgs(c)
 				s, _ := affineOf(a[1])
 				l, _ := affineOf(a[2])
 				found = true
@@ -277,17 +277,17 @@ func randomPrimeInRangeRule(P *Program, R *Report, rule string) {
 		if c == nil || a.Want != True || bigMethod(c) != "ProbablyPrime" {
 			return false
 		}
-		k, ok := constInt(c.Call.Args[1])
+		k, ok := constInt(callArgs(c)[1])
 		if !ok || k < 20 {
 			return false
 		}
 		// the tested object is the returned one
 		for _, r := range returnsOf(g) {
-			if len(r.Results) == 2 && !isNilConst(r.Results[0]) && siteOf(r.Results[0]) == siteOf(c.Call.Args[0]) {
+			if len(r.Results) == 2 && !isNilConst(r.Results[0]) && siteOf(r.Results[0]) == siteOf(callArgs(c)[0]) {
 				return true
 			}
 			if u, ok := r.Results[0].(*ssa.UnOp); ok {
-				if u2, ok := c.Call.Args[0].(*ssa.UnOp); ok && u.X == u2.X {
+				if u2, ok := callArgs(c)[0].(*ssa.UnOp); ok && u.X == u2.X {
 					return true
 				}
 			}
